@@ -62,6 +62,16 @@ async def _transaction(p, i, cfg, log):
                 rec["late_send"] = "accepted"
         return
 
+    _plain_sender = sender
+
+    async def sender(part, n):  # noqa: F811
+        try:
+            await _plain_sender(part, n)
+        except E.KafkaTimeoutError:
+            # send() refused the record after waiting request_timeout for room in the accumulator (back-pressure while
+            # a request of the transaction is being retried): the application gives the transaction up
+            rec["send_refused"] = True
+
     if cfg.get("stagger"):
         # the second task starts a little later (a new partition appears while AddPartitionsToTxn for the
         # first one may still be unanswered)
@@ -71,10 +81,18 @@ async def _transaction(p, i, cfg, log):
         await asyncio.gather(sender(0, cfg["n0"]), late())
     else:
         await asyncio.gather(sender(0, cfg["n0"]), sender(1, cfg["n1"]))
-    if batch is not None:
-        bf = await p.send_batch(batch, "t", partition=0)
-        rec["records"].append((0, b"t%d-batch" % i))
-        rec["futs"].append(bf)
+    if batch is not None and not rec.get("send_refused"):
+        try:
+            bf = await p.send_batch(batch, "t", partition=0)
+            rec["records"].append((0, b"t%d-batch" % i))
+            rec["futs"].append(bf)
+        except E.KafkaTimeoutError:
+            rec["send_refused"] = True
+    if rec.get("send_refused"):
+        rec["want"] = "abort"
+        await p.abort_transaction()
+        rec["outcome"] = "aborted"
+        return
     if cfg["offsets"]:
         off = 100 + i
         await p.send_offsets_to_transaction({TopicPartition("in", 0): OffsetAndMetadata(off, "")}, "grp")
